@@ -125,6 +125,18 @@ def gen(ctx):
             yield cmp_case("(def (Report (x 0))) (when true (:= Report.x %s))" % e, tags=("depth",))
             yield cmp_case("(def (Report (x 0))) (when %s (report))" % e.replace("+", "<", 1), tags=("depth",))
         yield cmp_case("(" * depth + "def", tags=("depth",))
+    # sources nested DEEPER than the property's bound are outside its quantifier themselves - but what they leave behind is
+    # not (round 5: a per-thread depth counter that a refused over-deep source did not give back; after ~255 of them every
+    # ordinary program panicked): several hundred distinct over-deep sources, all compiled by this one process on this one
+    # thread, with ordinary programs in between and after
+    for k in range(330):
+        depth = 201 + k % 60
+        e = str(k)
+        for _ in range(depth):
+            e = "(+ 1 %s)" % e
+        yield cmp_case("(def (Report (x 0))) (when true (:= Report.x %s))" % e, tags=("beyond-depth-bound",))
+        if k % 10 == 9 or k >= 250:
+            yield cmp_case("(def (Report (x 0))) (when true (:= Report.x (+ (+ 1 %d) (* 2 3))) (report))" % k, tags=("after-over-deep",))
     for n in [0, 1, 16, 17, 254, 255, 256, 257, 300]:
         yield cmp_case("(def " + " ".join("(c%d 0)" % i for i in range(n)) + ") (when true (report))", tags=("manydecls",))
         yield cmp_case("(def (Report " + " ".join("(r%d 0)" % i for i in range(max(n, 1))) + ")) (when true (report))", tags=("manydecls",))
